@@ -16,6 +16,7 @@ package l4throttle
 
 import (
 	"context"
+	"errors"
 	"fmt"
 	"net"
 	"strconv"
@@ -221,6 +222,17 @@ type throttledConn struct {
 	ctx                        context.Context
 	logger                     *zap.Logger
 	totalLimiter, localLimiter *rate.Limiter
+}
+
+// CloseWrite shuts down the writing side of the underlying connection if
+// it supports that (TCP, Unix sockets, TLS). Without this method the embedded
+// net.Conn hides it, and a handler further down the chain (the proxy) can no
+// longer half-close a throttled connection towards the client.
+func (tc throttledConn) CloseWrite() error {
+	if cw, ok := tc.Conn.(interface{ CloseWrite() error }); ok {
+		return cw.CloseWrite()
+	}
+	return errors.New("underlying connection does not support CloseWrite")
 }
 
 func (tc throttledConn) Read(p []byte) (int, error) {
